@@ -690,6 +690,15 @@ def sync_before_handover(ctx, p):
             inner = lib.must_sites(fo, INNER)
             lib.precedes(ctx, p + 'e bufwriter-flushed-before-sync', fo, inner, syncs,
                          'buffered log bytes are written (BufWriter::into_inner/flush) before sync_data', removed_edges=sync_true)
+    if fo:
+        # the sync and the removal of the file from the appending slot form one critical section of the slot's lock: a record appended
+        # in between (Log::end_record writes under the same lock) would reach the applier unsynced
+        takes = [bi for bi, t in fo.calls() if bi in fo.normal_blocks() and call_matches(t, ['re:Option::<T>::take$', 're:^std::mem::(take|replace)$']) and t['a'] and '.Log.appending' in lib.receiver_fields(fo, t, 0)]
+        if syncs and takes:
+            lib.same_guard_at(ctx, p + 'h sync-and-takeout-under-one-guard', fo, list(syncs) + takes, '.Log.appending',
+                              'one write guard of Log.appending is held from the fdatasync of the appending file to its removal from the slot (no record can be appended between the sync and the hand-over)', mode='write')
+        else:
+            ctx.ob(p + 'h sync-and-takeout-under-one-guard', 'anchor', fo.path, 'flush_one syncs the appending file and takes it out of its slot', False, 'sync sites %s take sites %s' % (syncs, takes))
     # the same for log files found at open: their bytes may sit only in the page cache (the previous process died, or stopped on an
     # I/O error, before flush_one synced them); replay applies them to the tables, so they are synced first
     rpn = F.body('log::Log::replay_next')
@@ -1513,6 +1522,17 @@ def torn_record_not_handed_over(ctx, p):
     if on_err and all(b.find_path(list(b.succ(x)), {e}, removed=set(on_err)) is None for x in ft for e in errs):
         clears = clears + errs      # every way into the error arm has passed the clearing closure
     w = b.find_path(errs, b.return_blocks(), removed=set(clears)) if clears else ['?']
+    refills = []
+    for bi in b.normal_blocks():
+        for st in b.blocks[bi]['s']:
+            if st['k'] == 'assign' and 'Option<log::Appending>' in str(b.locals[st['p'][0]]) and ('*' in st['p'][1:] or '.Log.appending' in st['p'][1:]):
+                if _stored_aggregate(b, st) != 'Adt:std::option::Option::None':
+                    refills.append(bi)
+    arm = b.reachable_from(errs, removed=set()) if errs else set()
+    back = [x for x in refills if x in arm]
+    ctx.ob(p + 'k2 torn-file-not-put-back', 'K1-must-pass', b.path,
+           'on the error arm of the append nothing is stored back into Log.appending: the file that ends in a torn record does not stay the appending file (a record larger than the writer\'s buffer has spilled its head into the file)',
+           not back, '' if not back else 'the slot is refilled on the error arm', b.loc(back[0]) if back else b.loc(ft[0]))
     ctx.ob(p + 'k torn-record-never-handed-over', 'K1-must-pass', b.path,
            'when appending a record fails, the appending log writer is given up before the error is returned (the torn file cannot be flushed into the read queue and applied without validation)',
            w is None, 'the error arm keeps Log.appending: the next flush hands the torn file to the applier' if not clears else 'error path that keeps the writer: ' + lib.short_path(b, w), b.loc(ft[0]))
